@@ -99,8 +99,9 @@ NoObs == [rep |-> <<>>, recs |-> <<>>, logs |-> {}, closed |-> FALSE]
 (* registrations of event streams the server acknowledged: [seq, f, from, to,   *)
 (* got, ovf] with from/to = positions in the sequence m.evs of all events that  *)
 (* reached the agent (to = -1: still registered), got = positions delivered so   *)
-(* far, ovf = a burst larger than the buffer hit it while the client did not    *)
-(* read; m.qs = Seqs of query requests; m.mons = Seqs of monitor requests.      *)
+(* far, ovf = 0 or the last position that still fitted into the buffer when a     *)
+(* burst larger than the buffer hit the stream while the client did not read;   *)
+(* m.qs = Seqs of query requests; m.mons = Seqs of monitor requests.      *)
 (* Clauses:                                                                    *)
 (*  C25_seq_unknown       a header whose Seq is not the Seq of a request sent   *)
 (*  C25_seq_wrong_stream  a record on a Seq that is not a stream of its kind    *)
@@ -135,7 +136,7 @@ MonStep(m, a, o) ==
       okRep  == isReq /\ \E i \in DOMAIN o.rep : o.rep[i].seq = a.seq /\ o.rep[i].err = 0
       \* a stream acknowledged in this line is registered AFTER the events of earlier lines
       regs1  == IF a.a = "stream" /\ okRep
-                THEN Append(m.regs, [seq |-> a.seq, f |-> a.f, from |-> Len(m.evs) + 1, to |-> -1, got |-> <<>>, ovf |-> FALSE])
+                THEN Append(m.regs, [seq |-> a.seq, f |-> a.f, from |-> Len(m.evs) + 1, to |-> -1, got |-> <<>>, ovf |-> 0])
                 ELSE m.regs
       qs2    == IF a.a = "query" /\ okRep THEN m.qs \cup {a.seq} ELSE m.qs
       mons2  == IF a.a = "monitor" /\ okRep THEN m.mons \cup {a.seq} ELSE m.mons
@@ -164,11 +165,14 @@ MonStep(m, a, o) ==
       regs2  == [j \in DOMAIN regs1 |->
                    [regs1[j] EXCEPT
                       !.got = IF j = RegOf(regs1[j].seq) THEN Got(j) ELSE @,
-                      !.ovf = @ \/ (a.a = "burst" /\ a.m > BufSize /\ regs1[j].to = -1 /\ Match(regs1[j].f, [k |-> "user", n |-> a.n, id |-> 0])),
+                      !.ovf = IF @ = 0 /\ a.a = "burst" /\ a.m > BufSize /\ regs1[j].to = -1 /\ Match(regs1[j].f, [k |-> "user", n |-> a.n, id |-> 0])
+                              THEN Len(m.evs) + BufSize ELSE @,
                       !.to  = IF @ = -1 /\ ((a.a = "stop" /\ a.stop = regs1[j].seq) \/ a.a = "close") THEN Len(m.evs) ELSE @]]
       b4     == IF \A j \in DOMAIN regs2 : Increasing(regs2[j].got) THEN {} ELSE {"C25_ev_order"}
       Want(j) == { p \in DOMAIN evs2 : p >= regs2[j].from /\ p <= regs2[j].to /\ Match(regs2[j].f, evs2[p]) }
-      b5     == IF a.a = "close" /\ \E j \in DOMAIN regs2 : ~regs2[j].ovf /\ ~(Want(j) \subseteq { regs2[j].got[x] : x \in DOMAIN regs2[j].got })
+      \* after an overflow only the events that still fitted into the buffer are owed
+      Owed(j) == { p \in Want(j) : regs2[j].ovf = 0 \/ p <= regs2[j].ovf }
+      b5     == IF a.a = "close" /\ \E j \in DOMAIN regs2 : ~(Owed(j) \subseteq { regs2[j].got[x] : x \in DOMAIN regs2[j].got })
                 THEN {"C25_ev_missing"} ELSE {}
       doneNow == { qrecs[i].seq : i \in { x \in DOMAIN qrecs : qrecs[x].k = "done" } }
       b6     == IF \/ \E i \in DOMAIN qrecs : qrecs[i].seq \in m.qdone /\ ~(a.a = "query" /\ qrecs[i].seq = a.seq)
